@@ -377,7 +377,9 @@ func (c *fsCache) get(key string) ([]byte, error) {
 	}
 	if c.updateMTime {
 		mtime := time.Now()
-		if err := c.root.Chtimes(name, zeroTime, mtime); err != nil {
+		if err := c.root.Chtimes(name, zeroTime, mtime); err != nil && !errors.Is(err, fs.ErrNotExist) {
+			// (a concurrent Delete may have removed the file after it was
+			// read: the value read is still the answer)
 			return nil, err
 		}
 	}
